@@ -17,7 +17,8 @@ klass(f"{T}:ExecutionTrace", fields={
 klass(f"{T}:ExecutedAssertion", fields={"trace_position": "int", "assertion": "Assertion"}, record=True)
 klass(f"{T}:PredicateMetaData", fields={"line_no": "int", "code_object_id": "int", "node": "BasicBlockNode"})
 klass(f"{T}:LineMetaData", fields={"code_object_id": "int", "file_name": "str", "line_number": "int"})
-klass(f"{T}:CodeObjectMetaData", fields={})
+klass("types:CodeType", fields={"co_firstlineno": "int"})
+klass(f"{T}:CodeObjectMetaData", fields={"code_object": "CodeType"})
 klass(f"{T}:SubjectProperties", fields={
     "existing_code_objects": "dict[int,CodeObjectMetaData]",
     "existing_predicates": "dict[int,PredicateMetaData]",
@@ -101,6 +102,11 @@ def _b_lm(f, ctx):
 
 @builder("CodeObjectMetaData")
 def _b_com(f, ctx):
+    return _Stub(**f)
+
+
+@builder("CodeType")
+def _b_code(f, ctx):
     return _Stub(**f)
 
 
